@@ -20,13 +20,15 @@ CONSTANTS Shapes, OshapeDeltas   \* array shapes; per-axis changes of the output
 VARIABLES cfg, plan
 vars == <<cfg, plan>>
 
-\* axes argument: None, or every way of writing a non-empty subset with non-negative / negative indices
+\* axes argument: None, the EMPTY subset (written <<-99>> here because None is <<>>: nothing is transformed, the call is
+\* the identity up to the centred resize), or every way of writing a non-empty subset with non-negative / negative indices
+EmptyAxes == <<-99>>
 AxesChoices(r) ==
-  {None} \cup
+  {None, EmptyAxes} \cup
   {SelectSeq([d \in 1..r |-> f[d]], LAMBDA a : a # 99) : f \in {g \in [1..r -> {99} \cup ((0 - r)..(r - 1))] :
         /\ \E d \in 1..r : g[d] # 99
         /\ \A d \in 1..r : g[d] # 99 => g[d] % r = d - 1}}
-AxSetOf(axes, r) == IF axes = None THEN 0..(r - 1) ELSE {axes[i] % r : i \in 1..Len(axes)}
+AxSetOf(axes, r) == IF axes = None THEN 0..(r - 1) ELSE IF axes = EmptyAxes THEN {} ELSE {axes[i] % r : i \in 1..Len(axes)}
 
 Exponent(m, c, sgn, k, n) == (sgn * (k - c) * (n - c)) % m
 AxisPlan(m, transformed, center) ==
